@@ -83,6 +83,18 @@ def _gen_core(rng, tier):
         yield Case("compress", [1, rows_str(rows)], True, "compress")
 
 
+    # sequence sets (rows of different lengths, distinct names): prefixes of one another, N / X runs, the N-as-gap comparison
+    for _ in range(150 if tier == "quick" else 1500):
+        alpha = rng.choice([0, 1])
+        wild = "X" if alpha == 0 else "N"
+        sym = ("ARND" if alpha == 0 else "ACGT") + wild + "-"
+        base = "".join(rng.choice(sym) for _ in range(rng.randint(2, 9)))
+        pool = [base, base[:len(base) // 2], base[:-1], base.replace(wild, "-"), base + wild, base[1:]]
+        pool += ["".join(rng.choice(sym) for _ in range(rng.randint(1, 9))) for _ in range(2)]
+        pool = [q for q in pool if q]
+        rows = [("s%d" % i, rng.choice(pool)) for i in range(rng.randint(2, 8))]
+        yield Case("dedupbag", [alpha, rows_str(rows), rng.randint(0, 1)], True, "dedup-sequence-set")
+
     # dictionary stratum: two DIFFERENT sequences / column patterns that collide under a common 32-bit hash
     from driver import hashpairs
     for h, x, y in hashpairs.all_pairs():
